@@ -48,6 +48,8 @@ type World struct {
 	phiEnv   map[*ssa.Phi]ssa.Value // path context while enumerating paths
 	phiBusy  map[*ssa.Phi]bool
 	memEnv   map[*ssa.Alloc]ssa.Value // last value stored to a multi-store local on the current path
+	files    map[string][]byte
+	overlay  map[string][]byte
 }
 
 func loadWorld(repo string, bc BuildConfig, overlay map[string][]byte) (*World, error) {
@@ -91,7 +93,7 @@ func loadWorld(repo string, bc BuildConfig, overlay map[string][]byte) (*World, 
 	}
 	prog, _ := ssautil.AllPackages(pkgs, ssa.InstantiateGenerics)
 	prog.Build()
-	w := &World{Repo: repo, Config: bc, Pkgs: pkgs, All: all, Prog: prog, Fset: prog.Fset, fwd: map[*ssa.Function]*fwdInfo{}}
+	w := &World{overlay: overlay, Repo: repo, Config: bc, Pkgs: pkgs, All: all, Prog: prog, Fset: prog.Fset, fwd: map[*ssa.Function]*fwdInfo{}}
 	for fn := range ssautil.AllFunctions(prog) {
 		if w.InModule(fn) && fn.Blocks != nil {
 			w.ModFuncs = append(w.ModFuncs, fn)
@@ -125,6 +127,8 @@ func (w *World) InModule(fn *ssa.Function) bool {
 	}
 	return strings.HasPrefix(p.Pkg.Path(), modPath)
 }
+
+func readFile(name string) ([]byte, error) { return os.ReadFile(name) }
 
 func (w *World) InModulePkg(p *types.Package) bool {
 	return p != nil && strings.HasPrefix(p.Path(), modPath)
